@@ -95,6 +95,44 @@ Proof.
     match type of H with context [normalize_index ?f ?n ?b] => destruct (normalize_index f n b) end; discriminate.
 Qed.
 
+(* ---------- what an element store may change behind the model's back ---------- *)
+(* Vm.v has value semantics for arrays and maps: its OpSetIndex pops and
+   checks, but the store itself — which on the real VM is visible through
+   every alias of the array / map object — is not performed.  [perturbed]
+   over-approximates that effect: the CONTENTS of arrays and maps anywhere in
+   the machine state (stack, locals, globals) may change arbitrarily; numbers,
+   booleans, strings, the positions of all values and ip stay. *)
+Definition vshape (v v' : value) : Prop :=
+  match v, v' with
+  | VArr _, VArr _ => True
+  | VMap _, VMap _ => True
+  | _, _ => v = v'
+  end.
+
+Definition perturbed (s s' : vmstate) : Prop :=
+  ip s' = ip s /\ Forall2 vshape (ostack s) (ostack s') /\
+  Forall2 vshape (locals s) (locals s') /\ Forall2 vshape (globals s) (globals s').
+
+Lemma forall2_length {A B} (R : A -> B -> Prop) l l' : Forall2 R l l' -> List.length l' = List.length l.
+Proof. induction 1; simpl; congruence. Qed.
+
+Lemma vshape_refl v : vshape v v.
+Proof. destruct v; simpl; auto. Qed.
+Lemma perturbed_refl s : perturbed s s.
+Proof.
+  assert (R : forall l, Forall2 vshape l l) by (induction l; constructor; auto using vshape_refl).
+  repeat split; auto.
+Qed.
+
+(* reachable, with such a change allowed between any two steps *)
+Inductive reachable_h (p : program) : vmstate -> Prop :=
+| rh_init : reachable_h p (vm_init p)
+| rh_step s s' : reachable_h p s -> vm_step p s = Running s' -> reachable_h p s'
+| rh_heap s s' : reachable_h p s -> perturbed s s' -> reachable_h p s'.
+
+Lemma reachable_reachable_h p s : reachable p s -> reachable_h p s.
+Proof. induction 1; [constructor|eapply rh_step; eauto]. Qed.
+
 (* ---------- the invariant ---------- *)
 Section Safe.
   Variable p : program.
@@ -140,6 +178,24 @@ Section Safe.
     intros [[Ht Ha]|[Ht Ha]] Hip Hfr Hm; split; auto.
     - left. subst a'. simpl in Hm. split; [congruence|]. destruct (ostack s'); [reflexivity|simpl in Hm; lia].
     - right. split; [congruence|]. exists a'. split; [congruence|exact Hm].
+  Qed.
+
+  (* the invariant does not look into arrays and maps *)
+  Lemma vinv_perturbed s s' : vinv s -> perturbed s s' -> vinv s'.
+  Proof.
+    intros [[HL HG] HV] (Hip & HO & HLo & HGl). split.
+    - split; [rewrite (forall2_length _ _ _ HLo); exact HL|rewrite (forall2_length _ _ _ HGl); exact HG].
+    - rewrite Hip. destruct HV as [[H1 H2]|[H1 (a & Ha & Hm)]].
+      + left. split; [exact H1|]. rewrite H2 in HO. inversion HO. reflexivity.
+      + right. split; [exact H1|]. exists a. split; [exact Ha|].
+        destruct a as [k|k]; simpl in *.
+        * rewrite (forall2_length _ _ _ HO). exact Hm.
+        * destruct Hm as (b0 & rest & ES & Hh). rewrite ES in HO.
+          destruct (ostack s') as [|y l'] eqn:ES'; [inversion HO|].
+          assert (Hxy : vshape (VBool b0) y) by (inversion HO; assumption).
+          assert (Hrest : Forall2 vshape rest l') by (inversion HO; assumption).
+          assert (Ey : y = VBool b0) by (destruct y; simpl in Hxy; congruence). subst y.
+          exists b0, l'. split; [reflexivity|]. rewrite (forall2_length _ _ _ Hrest). exact Hh.
   Qed.
 
   Lemma with_stack_good s next stk a' :
@@ -343,4 +399,40 @@ Theorem wf_vm_safe_partial : forall (p : program), WF (info_of p) ->
 Proof.
   intros p HW s HR. destruct (wf_vm_safe_crash_ok p HW s HR) as [A B]. split; [exact A|].
   destruct (vm_step p s); auto. apply crash_ok_type. exact B.
+Qed.
+
+(* The same with the heap effect of element stores over-approximated: between
+   any two steps the contents of arrays and maps anywhere in the state may
+   change (reachable_h).  The safety argument never looks into them. *)
+Theorem wf_vm_safe_heap_partial : forall (p : program), WF (info_of p) ->
+  forall s, reachable_h p s ->
+    plcount p <= sp_of s /\
+    match vm_step p s with
+    | Running _ | Failed _ => True
+    | Halted s' => ip s' = N.of_nat (List.length (pcode p)) /\ sp_of s' = plcount p
+    | Crashed c => c = CType
+    end.
+Proof.
+  intros p (instrs & h & HD & HS & HE & HF) s HR.
+  assert (HS' : forall pc i, In (pc, i) instrs -> operand_ok (info_of p) i = true)
+    by (intros pc i HI; apply (HS pc i HI)).
+  assert (INV : vinv p h s).
+  { induction HR as [|s s' HR IH Hstep|s s' HR IH HP].
+    - split; [split; simpl; rewrite repeat_length; lia|].
+      destruct (pcode p) as [|b t] eqn:EC.
+      + left. split; [unfold codelen; simpl; rewrite EC; reflexivity|reflexivity].
+      + right. split; [unfold codelen; simpl; rewrite EC; simpl; lia|].
+        exists (AH (plcount p)). split; [|simpl; lia].
+        apply HE. simpl in HD. rewrite EC in HD. eapply decode_all_nonempty; eauto. discriminate.
+    - pose proof (step_good p instrs h HD HS' HF s IH) as G. rewrite Hstep in G. exact G.
+    - apply (vinv_perturbed p h s s' IH HP). }
+  split.
+  - destruct INV as [[HL _] [[_ Hst]|[_ (a & _ & Hm)]]]; unfold sp_of; rewrite HL.
+    + lia.
+    + destruct a as [k|k]; simpl in Hm; [lia|]. lia.
+  - pose proof (step_good p instrs h HD HS' HF s INV) as G.
+    destruct (vm_step p s); auto.
+    + destruct G as (-> & Hip & Hst). split; [exact Hip|].
+      destruct INV as [[HL _] _]. unfold sp_of. rewrite HL, Hst. simpl. lia.
+    + apply crash_ok_type. exact G.
 Qed.
